@@ -1,6 +1,58 @@
-"""multiprocessing pool contract (DESIGN 2.5 'pool')."""
+"""multiprocessing pool contract (DESIGN 2.5 'pool'): for deterministic tasks with disjoint write sets, map/imap return
+[f(x) for x in xs] in submission order for every worker count and schedule (ASSUMED); imap_unordered some permutation."""
+import z3
 from .vals import *  # noqa
+from .exec import lib, method, LIBS
+
+
+@lib("multiprocessing", "Pool")
+def mp_pool(ex, args, kw):
+    ex.ctx.note("pool-created", tuple(args), tuple(kw))
+    return Record("Pool")
 
 
 def sym_map(ex, f, items, ordered=True):
-    raise Unsupported("map over a symbolic-length task list")
+    """ordered map over a symbolic-length task list: element i is f(items[i]) (the callee's contract, evaluated lazily);
+    the contract's precondition is an obligation for an arbitrary task index."""
+    n = items.length
+    j = ex.ctx.fresh("task")
+    # precondition / exception behaviour of the worker for an arbitrary task: evaluated once here so that obligations
+    # raised by the contract (call-site preconditions) are recorded on this path
+    ex.ctx.add_pc(z3.And(j >= 0, j < to_z3(n)))
+    probe = ex.call_value(f, [items.get(j, ex)])
+
+    def get(i):
+        ex.call_depth += 1          # evaluated lazily (possibly from a postcondition): still a callee, never a body
+        try:
+            return ex.call_value(f, [items.get(i, ex)])
+        finally:
+            ex.call_depth -= 1
+    return SymSeq(n, get, "list")
+
+
+def _map(ex, self, args, kw):
+    f, items = args[0], ex.as_iterable(args[1])
+    ex.ctx.note("pool-call", f)
+    if isinstance(items, list):
+        return [ex.call_value(f, [x]) for x in items]
+    return sym_map(ex, f, items)
+
+
+for _m in ("map", "imap"):
+    from .exec import METHODS
+    METHODS[("Record:Pool", _m)] = _map
+
+
+@method("Record:Pool", "__enter__")
+def pool_enter(ex, self, args, kw):
+    return self
+
+
+@method("Record:Pool", "__exit__")
+def pool_exit(ex, self, args, kw):
+    return None
+
+
+@method("Record:Pool", "close")
+def pool_close(ex, self, args, kw):
+    return None
